@@ -260,6 +260,14 @@ func mkDelay(kind string, base int64) (delay.Delay, window) {
 			t = t.In(time.FixedZone("", int(zone)))
 		}
 		d = delay.Until(t)
+	case 'U':
+		// an absolute time given in unix seconds: sentinel dates far outside the ±292 years of a time.Duration
+		// (2400-01-01, 9999-12-31, the zero time)
+		t := time.Unix(n, 0).UTC()
+		if zone != 0 {
+			t = t.In(time.FixedZone("", int(zone)))
+		}
+		d = delay.Until(t)
 	case 'z':
 		d = delay.Delay{}
 	}
@@ -297,6 +305,14 @@ func inferNow(kind string, base int64, tok string, w window) window {
 		if strings.HasPrefix(p[1], "d") {
 			if ns, err := strconv.ParseInt(p[1][1:], 10, 64); err == nil {
 				cand = base + n - ns
+			}
+		}
+	case 'U':
+		// only a time within int64 nanoseconds can be used to infer the reading; for the others the duration is saturated
+		// and the same for every reading in the window
+		if strings.HasPrefix(p[1], "d") && n > -9000000000 && n < 9000000000 {
+			if ns, err := strconv.ParseInt(p[1][1:], 10, 64); err == nil && ns > -9000000000000000000 && ns < 9000000000000000000 {
+				cand = n*1000000000 - ns
 			}
 		}
 	}
